@@ -25,7 +25,7 @@ from vlib import f2b, fs2b, b2f, b2fs
 from props import c01
 
 ID = "C03"
-GEN = ["Dist", "Combinators", "Leaves", "Misc", "Params", "Flows", "JaxTransforms"]
+GEN = ["Dist", "Combinators", "Leaves", "Misc", "Params", "Flows", "JaxTransforms", "MergeGen"]
 RULE = ("nested Transformed(StandardNormal, tree) of depth 1-3 over random scalar bijection trees (conditional via AdditiveCondition, "
         "and unconditional), private methods _log_prob/_sample/_sample_and_log_prob and public log_prob, plus merge_transforms(); "
         "premade flows (coupling, MAF, planar) x invert x conditional: orientation by structural introspection, and — against the GENERATED "
@@ -33,6 +33,7 @@ RULE = ("nested Transformed(StandardNormal, tree) of depth 1-3 over random scala
         "all parameters perturbed) and of hand-stacked triangular-spline stacks. non-trivial = tree has "
         "non-default parameters; distinct = distinct (nesting, method, argument, condition)")
 TRUSTED = c01.TRUSTED + ["Model/ToDist.lean nestTransformed/mergeTransforms (hand models validated here)",
+                         "Gen/MergeGen.lean: AbstractTransformed.merge_transforms / shape / cond_shape are REGENERATED from distributions.py (py2meth.py, sheet targets_merge.py) and proved equal to mergeTransforms (Props/C03 section MergeGen); trusted are the sheet's typing and the meanings of Model/MergeWorld.lean (objects as base | Transformed and leaf | Chain, isinstance = constructor test, list operations, `while` = fuel-bounded iteration proved never to exhaust, calling a class = the regenerated constructor of Gen/CtorsGen.lean) — validated here on real nested Transformed objects (op mgmt)",
                          "Prelude/Stats.lean normLogpdf spec (validated here against StandardNormal._log_prob)"]
 ASSUMPTIONS = ["base distributions enter the theorems as abstract records; the PRNG is JAX's (the model's key is the base sample itself)",
                "block_neural_autoregressive_flow / triangular_spline_flow cannot be constructed in this environment (WeightNormalization under filter_vmap fails)"]
@@ -54,6 +55,9 @@ def cond_tree(rng, depth):
 
 def corr(c, tier, rng):
     corr_nested(c, tier, rng)
+    # the REGENERATED merge_transforms / shape / cond_shape (Gen/MergeGen.lean, driver op `mgmt`) against real nested Transformed objects
+    from props import mergegen
+    mergegen.corr_transformed(c, tier, rng)
     corr_factories(c, tier, rng)
     scan_correspondence_hook(c, tier, rng)
 
